@@ -13,10 +13,14 @@ func init() {
 			"(C11-c) every ConnectionSet method that can grow the protocol map passes checkIfAllConnections (or sets AllowAll) on every exit, and the representation is written only inside package common; " +
 			"(C11-d) each binary PortSet operation consults Ports and NamedPorts (Equal/Union also ExcludedNamedPorts) of both sides. " +
 			"(C11-e) 'covers every port number' is decided by equality with the full interval 1-65535, never from Min()/Max() of a set, and ContainedIn excuses a missing named port only under that equality on its operand. " +
+			"(C11-g) the components of a PortSet are read only by its own methods (one reviewed reader outside), so emptiness / containment / fullness are always asked of numbered and named ports together; " +
+			"(C11-f) Equal compares every map-valued field in both directions. " +
 			"NOT decided: that results denote the right point sets - interval arithmetic belongs to np-guard/models and is not analysed."
 		rules.SetAlgebraEffects(p, r)
 		rules.CanonicalForm(p, r, "C11-c")
 		rules.FullRangeTests(p, r, "C11-e")
+		rules.SymmetricEquality(p, r, "C11-f")
+		rules.PortSetEncapsulation(p, r, "C11-g")
 		r.Assume("interval.CanonicalSet.Union/Intersect/Subtract/Copy return fresh sets; AddInterval/AddHole write their receiver (read from np-guard/models v0.5.2)")
 		r.Assume("convention of the package, used as the contract: methods with results are read-only, methods without results mutate the receiver")
 	})
